@@ -31,7 +31,7 @@ def main(tier, replay=None):
     proofs_ok = c.proofs(gen_only=["Consts.v"])
     c.log("proofs:", "ok" if proofs_ok else c.proof_break)
     counters = PC.new_counters()
-    n = 320 if tier == "quick" else 2200
+    n = 260 if tier == "quick" else 2200
     stats_all = []
     nbad = 0
     nhist = 0
@@ -56,7 +56,7 @@ def main(tier, replay=None):
             # shapes that exhibit reported findings: generated when the finding is listed (re-confirmation) or on request
             for key, probe in sorted(PC.PROBES.items()):
                 if key in c.known or os.environ.get("VERIF_PROBE"):
-                    h2, m2, s2, exe = PC.run(c, "c09", max(60, n // 4), ["-probes", probe], probe)
+                    h2, m2, s2, exe = PC.run(c, "c09", max(40, n // 6), ["-probes", probe], probe)
                     stats_all.append(probe + ": " + s2)
                     nbad += PC.evaluate(c, h2, m2, "c09", probe, exe, ["-probes", probe], counters)
                     nhist += len(h2)
